@@ -102,7 +102,8 @@ def values_adv(ast, tier):
             near = [near[int(i * step)] for i in range(cap)]
         # every mapping at every depth replaced by the least a Mapping can be (no .copy() / .pop() / .get override ...)
         bare = [all_bare(m) for m in (mem + near[:40]) if has_map(m)]
-        out += near + bare + values.POOL + ADV_POOL
+        big = [b for m in mem[:2] for b in values.inflate(m, 40)]
+        out += near + bare + big + values.POOL + ADV_POOL
         r = values.dedupe(out)
         if len(_VC) > 3000:
             _VC.clear()
